@@ -1,17 +1,19 @@
 #!/bin/sh
-# usage: seeded_run.sh <patch.diff> <check-id> [more ids]   (development aid)
+# usage: [SEEDED_TAG=x] [SEEDED_VERIF=/path/to/verif-checkout] seeded_run.sh <patch.diff> <check-id> [more ids]   (development aid)
 # Applies a seeded change to a persistent scratch worktree of /repo (never to /repo), runs the quick checks
 # against it (VERIF_REPO mode of ./check), prints the verdict and resets the worktree.
 PATCH=$(readlink -f "$1"); shift
-WT=/tmp/seeded_wt
+TAG=${SEEDED_TAG:-}
+VD=${SEEDED_VERIF:-/verif}
+WT=/tmp/seeded_wt$TAG
 if [ ! -d $WT ]; then git -C /repo worktree add -q --detach $WT HEAD || exit 2; fi
 git -C $WT checkout -q --detach $(git -C /repo rev-parse HEAD) 2>/dev/null
 git -C $WT checkout -q -- . ; git -C $WT clean -fdq
 if ! git -C $WT apply "$PATCH"; then echo "PATCH DOES NOT APPLY"; exit 2; fi
 for id in "$@"; do
-  rm -rf /tmp/seeded_replays; 
-  VERIF_REPO=$WT /verif/check $id quick --evidence /tmp/seeded_ev.json --replay-dir /tmp/seeded_replays > /tmp/seeded_out.log 2>&1
+  rm -rf /tmp/seeded_replays$TAG; 
+  VERIF_REPO=$WT $VD/check $id quick --evidence /tmp/seeded_ev$TAG.json --replay-dir /tmp/seeded_replays$TAG > /tmp/seeded_out$TAG.log 2>&1
   code=$?
-  echo "$id exit=$code $(grep -m1 -A1 '^VIOLATION' /tmp/seeded_out.log | tr '\n' ' ' | cut -c1-300) $(grep -m1 'HARNESS-ERROR' /tmp/seeded_out.log | cut -c1-200)"
+  echo "$id exit=$code $(grep -m1 -A1 '^VIOLATION' /tmp/seeded_out$TAG.log | tr '\n' ' ' | cut -c1-300) $(grep -m1 'HARNESS-ERROR' /tmp/seeded_out$TAG.log | cut -c1-200)"
 done
 git -C $WT checkout -q -- . ; git -C $WT clean -fdq
